@@ -2641,3 +2641,81 @@ func ruleForInShadow(c *Ctx, r *R) {
 	r.check(allAdds, "shadowed-by-non-enumerable", site, "after each object all of its own names, enumerable or not, are added to the set",
 		"the for-in evaluator never records the non-enumerable own names of the objects it has passed: a prototype's enumerable property that is shadowed by a non-enumerable own property is visited although 12.6.4 hides it")
 }
+
+func init() {
+	register(&Rule{ID: "OWN-global-methods", Props: []string{"C20"}, Min: 5,
+		Doc: "O: OWN-global shows that no package-level variable is stored to after initialisation; a variable holding a pointer to a library object can still be mutated through that object's methods. Every method call made outside init on a value loaded from a package-level variable of a type defined outside the module is on a type documented as safe for concurrent use (regexp.Regexp, strings.Replacer, language.Tag and matcher values, time.Location, reflect.Type); anything else - a *rand.Rand shared by all runtimes, a bytes.Buffer, a json.Encoder - is state shared between runtimes that run on different goroutines",
+		Run: ruleOwnGlobalMethods})
+}
+
+var concurrentSafeTypes = map[string]string{
+	"regexp.Regexp":                          "documented: safe for concurrent use by multiple goroutines (except configuration methods, none of which the module calls)",
+	"strings.Replacer":                       "documented: safe for concurrent use",
+	"golang.org/x/text/language.Tag":         "immutable value",
+	"time.Location":                          "immutable after load",
+	"reflect.rtype":                          "immutable type descriptor",
+	"unicode.RangeTable":                     "read-only table",
+	"golang.org/x/text/language.matcher":     "immutable after construction",
+	"golang.org/x/text/internal/number.Info": "immutable value",
+}
+
+func ruleOwnGlobalMethods(c *Ctx, r *R) {
+	n := 0
+	for _, fn := range c.AllSrcFuncs("", "parser", "file", "ast", "token", "registry") {
+		if strings.HasPrefix(fn.Name(), "init") && fn.Parent() == nil && fn.Signature.Recv() == nil {
+			continue
+		}
+		ord := map[string]int{}
+		for _, b := range fn.Blocks {
+			for _, ins := range b.Instrs {
+				call, ok := ins.(ssa.CallInstruction)
+				if !ok {
+					continue
+				}
+				cc := call.Common()
+				var recv ssa.Value
+				var recvType types.Type
+				switch {
+				case cc.IsInvoke():
+					recv, recvType = cc.Value, cc.Value.Type()
+				case cc.StaticCallee() != nil && cc.StaticCallee().Signature.Recv() != nil && len(cc.Args) > 0:
+					recv, recvType = cc.Args[0], cc.StaticCallee().Signature.Recv().Type()
+				default:
+					continue
+				}
+				ld, ok := recv.(*ssa.UnOp)
+				if !ok || ld.Op != token.MUL {
+					continue
+				}
+				g, ok := ld.X.(*ssa.Global)
+				if !ok || g.Pkg == nil || !strings.HasPrefix(g.Pkg.Pkg.Path(), ottoPath) {
+					continue
+				}
+				nt := derefNamed(recvType)
+				if cc.IsInvoke() {
+					// the dynamic type is what matters: take the static type of the variable's initialiser if it is concrete
+					nt = derefNamed(g.Type().(*types.Pointer).Elem())
+				}
+				if nt == nil || nt.Obj().Pkg() == nil || strings.HasPrefix(nt.Obj().Pkg().Path(), ottoPath) {
+					continue
+				}
+				tname := nt.Obj().Pkg().Path() + "." + nt.Obj().Name()
+				n++
+				base := g.Name() + ":" + tname
+				ord[base]++
+				if ord[base] > 1 {
+					continue // one obligation per variable and function
+				}
+				key := fmt.Sprintf("%s@%s", base, ssaFuncName(fn))
+				if why, ok := concurrentSafeTypes[tname]; ok {
+					r.ok(key, c.Pos(instrPos(call)), why)
+				} else {
+					r.bad(key, c.Pos(instrPos(call)), fmt.Sprintf("%s calls a method of the package-level variable %s, a %s: that object is shared by every runtime in the process and its type is not known to be safe for concurrent use, so two runtimes on different goroutines race on it (a process-wide *rand.Rand behind Math.random: data race, and the same random numbers handed to two runtimes)", ssaFuncName(fn), g.Name(), tname))
+				}
+			}
+		}
+	}
+	if n == 0 {
+		r.undecided("unresolved:sites", "-", "UNRESOLVED: no method call on a package-level library object found (the regexps of builtin.go are such)")
+	}
+}
